@@ -1032,6 +1032,7 @@ def gen_regions():
                                      [("self->chunk.chunk_counter", "chunk_counter")], "round_down_to_power_of_2")
     o.append(txt)
     o.append(gen_c_output_plan_body(A))
+    o.append(gen_c_stack_accesses(A))
     o.append("end C\n")
     o.append("end B3.Gen")
     return "\n".join(o) + "\n"
@@ -1241,6 +1242,687 @@ def gen_c_output_plan_body(A):
     o += ["  ev", ""]
     return "\n".join(o)
 
+
+# ------------------------------------------------------------------------------------------------
+# G6: control skeleton of the Rust Hasher (merge_cv_stack, push_cv, final_output): a statement-level
+# translation of imperative code (let / let mut, assignment, compound assignment, if/else, early return, while ->
+# fuel loop, Vec-like push / pop().unwrap() / len / index) into the checked-arithmetic monad R.
+
+
+def rs_statements(text):
+    """top-level statements of a Rust block: ('while', cond, body) | ('if', cond, then, else|None) | ('stmt', s) | ('tail', s)"""
+    out = []
+    i, n = 0, len(text)
+
+    def cond_and_block(j):
+        depth = 0
+        k = j
+        while k < n:
+            ch = text[k]
+            if ch in "([":
+                depth += 1
+            elif ch in ")]":
+                depth -= 1
+            elif ch == "{" and depth == 0:
+                e = match_brace(text, k)
+                return text[j:k].strip(), text[k + 1:e - 1], e
+            k += 1
+        raise ValueError("block expected")
+
+    while i < n:
+        while i < n and text[i].isspace():
+            i += 1
+        if i >= n:
+            break
+        m = re.match(r"(while|if)\b", text[i:])
+        if m:
+            cond, blk, e = cond_and_block(i + m.end())
+            if m.group(1) == "while":
+                out.append(("while", cond, blk))
+                i = e
+                continue
+            els = None
+            m2 = re.match(r"\s*else\s*\{", text[e:])
+            if m2:
+                k = e + m2.end() - 1
+                e2 = match_brace(text, k)
+                els = text[k + 1:e2 - 1]
+                e = e2
+            elif re.match(r"\s*else\s+if\b", text[e:]):
+                raise ValueError("else-if chains are not supported")
+            out.append(("if", cond, blk, els))
+            i = e
+            continue
+        depth = 0
+        k = i
+        while k < n:
+            ch = text[k]
+            if ch in "([{":
+                depth += 1
+            elif ch in ")]}":
+                depth -= 1
+            elif ch == ";" and depth == 0:
+                break
+            k += 1
+        if k >= n:
+            out.append(("tail", text[i:].strip()))
+            break
+        out.append(("stmt", text[i:k].strip()))
+        i = k + 1
+    return out
+
+
+class ImpTr:
+    """cfg: name, params [(lean name, type)], ret type, types {var: type}, expr(e, tr) -> (term, type) | None for special
+    expressions, fuel {loop index: lean term}, self_calls {method: (lean fn, [arg names], assigns var)}"""
+
+    def __init__(self, artefact, cfg, consts):
+        self.A, self.cfg, self.consts = artefact, cfg, consts
+        self.types = dict(cfg["types"])
+        self.defs = []
+        self.nloops = 0
+        self.tmp = 0
+
+    def fresh(self):
+        self.tmp += 1
+        return f"t{self.tmp}"
+
+    # -- expressions: returns (term, type); appends monadic lets to `lines`
+    def ex(self, e, lines, pad):
+        sp = self.cfg["expr"](e, self, lines, pad)
+        if sp is not None:
+            return sp
+        c = const_eval(e)
+        if c is not None:
+            return str(c), "Nat"
+        k = e[0]
+        if k == "var":
+            if e[1] in self.consts:
+                return str(self.consts[e[1]]), "Nat"
+            if e[1] not in self.types:
+                raise ValueError(f"unknown variable {e[1]}")
+            return e[1], self.types[e[1]]
+        if k == "paren":
+            return self.ex(e[1], lines, pad)
+        if k == "cast":
+            if e[2] in ("u64", "usize"):
+                return self.ex(e[1], lines, pad)
+            raise ValueError(f"cast to {e[2]}")
+        if k == "bin":
+            (a, ta), (b, tb) = self.ex(e[2], lines, pad), self.ex(e[3], lines, pad)
+            if ta != "Nat" or tb != "Nat":
+                raise ValueError("arithmetic on non-integers")
+            f = {"+": "Arith.cadd", "-": "Arith.csub", "*": "Arith.cmul", "/": "Arith.cdiv", "%": "Arith.cmod"}.get(e[1])
+            if not f:
+                raise ValueError(f"operator {e[1]}")
+            v = self.fresh()
+            lines.append(f"{pad}let {v} ← {f} {a} {b}")
+            return v, "Nat"
+        if k == "method":
+            r, tr = self.ex(e[1], lines, pad)
+            if e[2] == "len" and not e[3] and tr.startswith("List"):
+                return f"{r}.length", "Nat"
+            if e[2] == "count_ones" and not e[3] and tr == "Nat":
+                return f"(Arith.popcnt {r})", "Nat"
+            if e[2] == "unwrap" and not e[3]:
+                return r, tr       # `pop().unwrap()` is handled as a statement; other unwraps are the identity on R values
+            raise ValueError(f"method {e[2]} on {tr}")
+        if k == "index":
+            r, tr = self.ex(e[1], lines, pad)
+            i, ti = self.ex(e[2], lines, pad)
+            if not tr.startswith("List ") or ti != "Nat":
+                raise ValueError("index on a non-list")
+            v = self.fresh()
+            lines.append(f"{pad}let {v} ← Arith.getIdx {r} {i}")
+            return v, tr[5:]
+        raise ValueError(f"cannot translate {e}")
+
+    def cond(self, s, lines, pad):
+        s = s.strip()
+        m = re.match(r"^(.+)\.is_empty\(\)$", s, re.S)
+        if m:
+            r, tr = self.ex(parse_expr(m.group(1)), lines, pad)
+            return f"{r}.isEmpty"
+        for op, lean in ((">=", "≥"), ("<=", "≤"), ("==", "="), ("!=", "≠"), (">", ">"), ("<", "<")):
+            parts = split_top(s, op)
+            if parts:
+                a, _ = self.ex(parse_expr(parts[0]), lines, pad)
+                b, _ = self.ex(parse_expr(parts[1]), lines, pad)
+                return f"{a} {lean} {b}"
+        raise ValueError(f"condition {s!r}")
+
+    def assigned(self, stmts):
+        """variables (already typed, i.e. declared outside or declared-uninitialised) assigned in a statement list"""
+        out = []
+
+        def add(v):
+            if v not in out:
+                out.append(v)
+        for st in stmts:
+            if st[0] == "while":
+                for v in self.assigned(rs_statements(st[2])):
+                    add(v)
+            elif st[0] == "if":
+                for v in self.assigned(rs_statements(st[2])) + (self.assigned(rs_statements(st[3])) if st[3] else []):
+                    add(v)
+            elif st[0] == "stmt":
+                t = self.norm(st[1])
+                m = re.match(r"^(\w+)\s*(?:[-+*/]?=)(?!=)", t)
+                if m and not t.startswith("let "):
+                    add(m.group(1))
+                m = re.match(r"^(\w+)\.push\(", t)
+                if m:
+                    add(m.group(1))
+                m = re.match(r"^let\s+\w+\s*=\s*(\w+)\.pop\(\)\.unwrap\(\)$", t)
+                if m:
+                    add(m.group(1))
+                for meth, (_, _, target) in self.cfg.get("self_calls", {}).items():
+                    if re.match(r"^self\.%s\(" % meth, t) and target:
+                        add(target)
+        return out
+
+    def norm(self, t):
+        for a, b in self.cfg.get("subst", []):
+            t = t.replace(a, b)
+        return t.strip()
+
+    def tup(self, vs):
+        return vs[0] if len(vs) == 1 else "(" + ", ".join(vs) + ")"
+
+    def tuptype(self, vs):
+        return f"({self.types[vs[0]]})" if len(vs) == 1 else "(" + " × ".join(self.types[v] for v in vs) + ")"
+
+    def block(self, stmts, pad, result_vars):
+        """lines of a `do` block that ends with `pure <result_vars>` (or the tail expression when result_vars is None)"""
+        lines = []
+        idx = 0
+        while idx < len(stmts):
+            st = stmts[idx]
+            idx += 1
+            if st[0] == "while":
+                body = rs_statements(st[2])
+                svars = self.assigned(body)
+                if not svars:
+                    raise ValueError("loop assigns nothing")
+                self.nloops += 1
+                k = self.nloops
+                lname = f"{self.cfg['name']}_loop{k}" if k > 1 else f"{self.cfg['name']}_loop"
+                # read-only free variables of the loop: every typed name that occurs in its text and is not state
+                txt = self.norm(st[1] + " " + st[2])
+                ro = [v for v in self.types if v not in svars and re.search(r"\b%s\b" % re.escape(v), txt) and v not in self.cfg.get("globals", [])]
+                sub = ImpTr(self.A, self.cfg, self.consts)
+                sub.types = dict(self.types)
+                sub.nloops = self.nloops
+                cl = []
+                c = sub.cond(self.norm(st[1]), cl, "      ")
+                bl = sub.block(body, "        ", None)
+                self.defs += sub.defs
+                self.nloops = sub.nloops
+                args = svars + ro
+                d = [f"def {lname} : Nat → " + " → ".join(self.types[v] for v in args) + f" → R {self.tuptype(svars)}",
+                     "  | 0, " + ", ".join("_" for _ in args) + " => .panic   -- out of fuel",
+                     "  | fuel + 1, " + ", ".join(args) + " => do"]
+                d += cl
+                d += [f"      if {c} then do"] + bl + [f"        {lname} fuel " + " ".join(args), f"      else pure {self.tup(svars)}", ""]
+                self.defs.append("\n".join(d))
+                fuel = self.cfg["fuel"][k]
+                lines.append(f"{pad}let {self.tup(svars)} ← {lname} {self.cfg.get('section_args', '')} ({fuel}) " + " ".join(args))
+                continue
+            if st[0] == "if":
+                then = rs_statements(st[2])
+                # early return: `if c { ...; return E; }` followed by the rest of the block
+                if then and then[-1][0] == "stmt" and then[-1][1].startswith("return ") and st[3] is None:
+                    cl = []
+                    c = self.cond(self.norm(st[1]), cl, pad)
+                    lines += cl
+                    tl = self.block(then[:-1] + [("tail", then[-1][1][7:])], pad + "  ", None)
+                    rest = self.block(stmts[idx:], pad + "  ", result_vars)
+                    lines += [f"{pad}if {c} then do"] + tl + [f"{pad}else do"] + rest
+                    return lines
+                els = rs_statements(st[3]) if st[3] else []
+                avars = self.assigned(then + els)
+                cl = []
+                c = self.cond(self.norm(st[1]), cl, pad)
+                lines += cl
+                # variables declared without initialiser must be assigned in both branches
+                for v in avars:
+                    if v in self.uninit and not (v in self.assigned(then) and v in self.assigned(els)):
+                        raise ValueError(f"{v} may be used uninitialised")
+                save = set(self.uninit)
+                self.uninit -= set(avars)
+                tl = self.block(then, pad + "    ", avars)
+                el = self.block(els, pad + "    ", avars)
+                if not avars:
+                    raise ValueError("if without effect")
+                lines += [f"{pad}let {self.tup(avars)} ← (if {c} then do"] + tl + [f"{pad}  else do"] + el + [f"{pad}  )"]
+                continue
+            t = self.norm(st[1])
+            if st[0] == "tail":
+                v, ty = self.ex(parse_expr(t), lines, pad)
+                lines.append(f"{pad}pure {v}")
+                return lines
+            if re.match(r"^debug_assert(_eq)?!\(", t):
+                continue        # debug assertions do not affect the result; the harness observes them as PANIC
+            m = re.match(r"^let\s+mut\s+(\w+)\s*:\s*(\w+)$", t)
+            if m:
+                ty = self.cfg["rust_types"].get(m.group(2))
+                if not ty:
+                    raise ValueError(f"type {m.group(2)}")
+                self.types[m.group(1)] = ty
+                self.uninit.add(m.group(1))
+                continue
+            m = re.match(r"^let\s+(\w+)\s*=\s*(\w+)\.pop\(\)\.unwrap\(\)$", t)
+            if m:
+                lines.append(f"{pad}let ({m.group(1)}, {m.group(2)}) ← Arith.pop {m.group(2)}")
+                self.types[m.group(1)] = self.types[m.group(2)][5:]
+                continue
+            m = re.match(r"^let\s+(?:mut\s+)?(\w+)(?:\s*:\s*\w+)?\s*=\s*(.+)$", t, re.S)
+            if m:
+                v, ty = self.ex(parse_expr(m.group(2)), lines, pad)
+                lines.append(f"{pad}let {m.group(1)} := {v}")
+                self.types[m.group(1)] = ty
+                continue
+            m = re.match(r"^(\w+)\.push\((.+)\)$", t, re.S)
+            if m:
+                v, ty = self.ex(parse_expr(m.group(2)), lines, pad)
+                lines.append(f"{pad}let {m.group(1)} := {m.group(1)} ++ [{v}]")
+                continue
+            m = re.match(r"^(\w+)\s*([-+])=\s*(.+)$", t, re.S)
+            if m:
+                v, ty = self.ex(parse_expr(m.group(3)), lines, pad)
+                f = "Arith.cadd" if m.group(2) == "+" else "Arith.csub"
+                lines.append(f"{pad}let {m.group(1)} ← {f} {m.group(1)} {v}")
+                continue
+            m = re.match(r"^(\w+)\s*=\s*(.+)$", t, re.S)
+            if m and m.group(1) in self.types:
+                v, ty = self.ex(parse_expr(m.group(2)), lines, pad)
+                lines.append(f"{pad}let {m.group(1)} := {v}")
+                continue
+            done = False
+            for meth, (fn, argnames, target) in self.cfg.get("self_calls", {}).items():
+                m = re.match(r"^self\.%s\((.*)\)$" % meth, t, re.S)
+                if m:
+                    p = P(tokenize(m.group(1) + ")"))
+                    args = [self.ex(a, lines, pad)[0] for a in p.args(")")]
+                    lines.append(f"{pad}let {target} ← {fn} " + " ".join(argnames + args))
+                    done = True
+            if done:
+                continue
+            raise ValueError(f"statement {t!r}")
+        if result_vars is not None:
+            lines.append(f"{pad}pure {self.tup(result_vars)}")
+        return lines
+
+    uninit = set()
+
+
+def split_top(s, op):
+    depth = 0
+    i = 0
+    while i < len(s):
+        c = s[i]
+        if c in "([":
+            depth += 1
+        elif c in ")]":
+            depth -= 1
+        elif depth == 0 and s.startswith(op, i):
+            if op in (">", "<") and (s[i + 1:i + 2] in ("=", ">", "<") or (i > 0 and s[i - 1] in ("<", ">", "-", "="))):
+                i += 1
+                continue
+            if op == "==" or op == "!=" or op in (">=", "<=") or op in (">", "<"):
+                return s[:i], s[i + len(op):]
+        i += 1
+    return None
+
+
+def gen_skeleton():
+    A = "G6-skeleton"
+    consts = rust_consts()
+    PNO = ["&self.key", "self.chunk_state.flags", "self.chunk_state.platform"]
+
+    def special(e, tr, lines, pad):
+        if e[0] == "call" and e[1] == "parent_node_output":
+            return None   # handled textually below (arguments contain `&`)
+        if e[0] == "method" and e[2] == "chaining_value" and not e[3]:
+            r, ty = tr.ex(e[1], lines, pad)
+            if ty != "Out":
+                raise ValueError("chaining_value on a non-Output")
+            return f"(chain {r})", "CV"
+        return None
+
+    def mk(name, params, ret, types, fuel, extra_subst=()):
+        return dict(name=name, params=params, ret=ret, types=types, expr=special, fuel=fuel, section_args="parentOutput chain",
+                    rust_types={"Output": "Out"},
+                    subst=[("self.cv_stack", "cv_stack"), ("self.initial_chunk_counter", "initial_chunk_counter"),
+                           ("self.chunk_state.count()", "cs_count"), ("self.chunk_state.output()", "cs_output"),
+                           ("self.chunk_state.chunk_counter", "cs_chunk_counter")] + list(extra_subst),
+                    self_calls={"merge_cv_stack": ("merge_cv_stack parentOutput chain", ["cv_stack", "initial_chunk_counter"], "cv_stack")})
+
+    def prep(body):
+        body = strip_comments(body)
+        # parent_node_output(&a, &b, &self.key, self.chunk_state.flags, self.chunk_state.platform) -> __pno(a, b)
+        def repl(m):
+            inner = m.group(1)
+            p = [x.strip() for x in split_args(inner)]
+            if len(p) != 5 or [re.sub(r"\s+", "", x) for x in p[2:]] != [re.sub(r"\s+", "", x) for x in PNO]:
+                raise TranslationBroken(A, f"parent_node_output called with unexpected key/flags/platform arguments: {inner!r}")
+            return f"__pno({p[0].lstrip('&')}, {p[1].lstrip('&')})"
+        out, i = [], 0
+        while True:
+            j = body.find("parent_node_output(", i)
+            if j < 0:
+                out.append(body[i:])
+                break
+            e = match_brace(body, j + len("parent_node_output"), "(", ")")
+            out.append(body[i:j])
+            out.append(repl(re.match(r"parent_node_output\((.*)\)$", body[j:e], re.S)))
+            i = e
+        return "".join(out)
+
+    def special2(e, tr, lines, pad):
+        if e[0] == "call" and e[1] == "__pno":
+            (a, ta), (b, tb) = tr.ex(e[2][0], lines, pad), tr.ex(e[2][1], lines, pad)
+            if ta != "CV" or tb != "CV":
+                raise ValueError("parent_node_output on non-CVs")
+            return f"(parentOutput {a} {b})", "Out"
+        return special(e, tr, lines, pad)
+
+    o = ["/- GENERATED by gen/extract.py from /repo/src/lib.rs (Hasher::merge_cv_stack, push_cv, final_output) -- do not edit -/",
+         "import B3.Prim", "import B3.Arith", "namespace B3.Gen.Rs.Skel", "open B3", "",
+         "variable {Out : Type} (parentOutput : CV → CV → Out) (chain : Out → CV)", "include parentOutput chain", ""]
+
+    def emit_fn(header_re, cfg, sig, doc):
+        params, body = find_fn(A, "src/lib.rs", header_re)
+        cfg["expr"] = special2
+        tr = ImpTr(A, cfg, consts)
+        tr.uninit = set()
+        try:
+            lines = tr.block(rs_statements(prep(body)), "  ", cfg.get("result"))
+        except TranslationBroken:
+            raise
+        except Exception as ex:
+            raise TranslationBroken(A, f"{cfg['name']}: {ex}")
+        o.extend(tr.defs)
+        o.append(f"/-- {doc} -/")
+        o.append(f"def {cfg['name']} {sig} : R {cfg['ret']} := do")
+        o.extend(lines)
+        o.append("")
+
+    emit_fn(r"fn\s+merge_cv_stack\s*\(\s*&mut\s+self\s*,\s*chunk_counter\s*:\s*u64\s*\)",
+            dict(mk("merge_cv_stack", None, "(List CV)", {"cv_stack": "List CV", "initial_chunk_counter": "Nat", "chunk_counter": "Nat"},
+                    {1: "cv_stack.length + 1"}), result=["cv_stack"]),
+            "(cv_stack : List CV) (initial_chunk_counter chunk_counter : Nat)",
+            "`Hasher::merge_cv_stack`: returns the new `cv_stack`; panics where the code's `unwrap` / subtraction would")
+    emit_fn(r"fn\s+push_cv\s*\(\s*&mut\s+self\s*,\s*new_cv\s*:\s*&CVBytes\s*,\s*chunk_counter\s*:\s*u64\s*\)",
+            dict(mk("push_cv", None, "(List CV)", {"cv_stack": "List CV", "initial_chunk_counter": "Nat", "chunk_counter": "Nat", "new_cv": "CV"}, {}),
+                 result=["cv_stack"]),
+            "(cv_stack : List CV) (initial_chunk_counter : Nat) (new_cv : CV) (chunk_counter : Nat)",
+            "`Hasher::push_cv`")
+    emit_fn(r"fn\s+final_output\s*\(\s*&self\s*\)\s*->\s*Output",
+            dict(mk("final_output", None, "Out", {"cv_stack": "List CV", "cs_output": "Out", "cs_count": "Nat", "initial_chunk_counter": "Nat",
+                                                   "cs_chunk_counter": "Nat"}, {1: "num_cvs_remaining + 1"}), result=None),
+            "(cv_stack : List CV) (cs_output : Out) (cs_count : Nat)",
+            "`Hasher::final_output` (`cs_output` = `self.chunk_state.output()`, `cs_count` = `self.chunk_state.count()`)")
+    o.append("end B3.Gen.Rs.Skel")
+    return "\n".join(o) + "\n"
+
+
+def split_args(s):
+    out, depth, cur = [], 0, []
+    for ch in s:
+        if ch in "([{":
+            depth += 1
+        elif ch in ")]}":
+            depth -= 1
+        if ch == "," and depth == 0:
+            out.append("".join(cur))
+            cur = []
+        else:
+            cur.append(ch)
+    if "".join(cur).strip():
+        out.append("".join(cur))
+    return out
+
+
+# ------------------------------------------------------------------------------------------------
+# G3d: accesses to self->cv_stack in c/blake3.c (hasher_merge_cv_stack, hasher_push_cv, blake3_hasher_finalize_seek)
+
+
+def c_int_expr(s, names, consts):
+    """C integer expression over small non-negative values -> exact Lean Int expression (no wrap-around: the theorems show the
+    exact values are in range, so the machine values coincide with them)"""
+    def go(e):
+        k = e[0]
+        if k == "num":
+            return str(e[1])
+        if k == "var":
+            if e[1] in consts:
+                return str(consts[e[1]])
+            if e[1] in names:
+                return names[e[1]]
+            raise ValueError(f"unknown name {e[1]}")
+        if k == "paren":
+            return "(" + go(e[1]) + ")"
+        if k == "cast":
+            return go(e[1])
+        if k == "bin" and e[1] in "+-*":
+            return f"({go(e[2])} {e[1]} {go(e[3])})"
+        raise ValueError(f"cannot translate {e}")
+    return go(parse_expr(s.replace("self->cv_stack_len", "cv_stack_len")))
+
+
+def gen_c_stack_accesses(A):
+    cc = {"BLAKE3_OUT_LEN": c_define_int(A, "c/blake3.h", "BLAKE3_OUT_LEN"), "BLAKE3_BLOCK_LEN": c_define_int(A, "c/blake3.h", "BLAKE3_BLOCK_LEN")}
+    max_depth = c_define_int(A, "c/blake3.h", "BLAKE3_MAX_DEPTH")
+    # the declared size of the array
+    htxt = strip_comments(src("c/blake3.h"))
+    m = re.search(r"uint8_t\s+cv_stack\s*\[\s*\(\s*BLAKE3_MAX_DEPTH\s*\+\s*1\s*\)\s*\*\s*BLAKE3_OUT_LEN\s*\]", htxt)
+    if not m:
+        raise TranslationBroken(A, "blake3.h: cv_stack is not declared as uint8_t cv_stack[(BLAKE3_MAX_DEPTH + 1) * BLAKE3_OUT_LEN]")
+    if not re.search(r"uint8_t\s+cv_stack_len\s*;", htxt):
+        raise TranslationBroken(A, "blake3.h: cv_stack_len is not a uint8_t")
+    size = (max_depth + 1) * cc["BLAKE3_OUT_LEN"]
+    STACK = r"&\s*self->cv_stack\s*\[(.+)\]"
+    o = ["/-- one access to `self->cv_stack` (byte offset, length); offsets are exact integers -/",
+         "inductive Acc where", "  | read (off : Int) (len : Nat)", "  | write (off : Int) (len : Nat)", "deriving DecidableEq, Repr", "",
+         f"def CV_STACK_BYTES : Nat := {size}", ""]
+
+    def fail(fn, msg):
+        raise TranslationBroken(A, f"{fn}: {msg}")
+
+    # ---- hasher_merge_cv_stack
+    fn = "hasher_merge_cv_stack"
+    params, body = find_fn(A, "c/blake3.c", r"INLINE\s+void\s+hasher_merge_cv_stack\s*\(")
+    if not re.match(r"\s*blake3_hasher\s*\*\s*self\s*,\s*uint64_t\s+total_len\s*$", params):
+        fail(fn, "unexpected parameters")
+    body = strip_comments(body)
+    m = re.match(r"^\s*size_t\s+post_merge_stack_len\s*=\s*\(size_t\)\s*popcnt\(\s*total_len\s*\)\s*;\s*while\s*\(\s*self->cv_stack_len\s*>\s*post_merge_stack_len\s*\)\s*\{(.*)\}\s*$", body, re.S)
+    if not m:
+        fail(fn, "expected `post_merge_stack_len = popcnt(total_len); while (self->cv_stack_len > post_merge_stack_len) {...}`")
+    names = {"cv_stack_len": "(cv_stack_len : Int)"}
+    ptrs = {}
+    ev = []
+    dec = None
+    try:
+        for kind, t in [(k, x) for k, *r in c_statements(m.group(1)) for x in r[:1]]:
+            if kind != "stmt":
+                fail(fn, "nested control flow in the loop body")
+            mm = re.match(r"^uint8_t\s*\*\s*(\w+)\s*=\s*" + STACK + r"$", t, re.S)
+            if mm:
+                ptrs[mm.group(1)] = c_int_expr(mm.group(2), names, cc)
+                continue
+            mm = re.match(r"^output_t\s+output\s*=\s*parent_output\(\s*(\w+)\s*,\s*self->key\s*,\s*self->chunk\.flags\s*\)$", t)
+            if mm and mm.group(1) in ptrs:
+                ev.append(f".read {ptrs[mm.group(1)]} {cc['BLAKE3_BLOCK_LEN']}")
+                continue
+            mm = re.match(r"^output_chaining_value\(\s*&output\s*,\s*(\w+)\s*\)$", t)
+            if mm and mm.group(1) in ptrs:
+                ev.append(f".write {ptrs[mm.group(1)]} {cc['BLAKE3_OUT_LEN']}")
+                continue
+            mm = re.match(r"^self->cv_stack_len\s*-=\s*(\d+)$", t)
+            if mm:
+                dec = int(mm.group(1))
+                continue
+            fail(fn, f"statement {t!r}")
+    except TranslationBroken:
+        raise
+    except Exception as ex:
+        fail(fn, str(ex))
+    if dec is None:
+        fail(fn, "the loop does not decrease cv_stack_len")
+    o += ["def merge_cv_stack_loop : Nat → Nat → Nat → List Acc → Nat × List Acc",
+          "  | 0, cv_stack_len, _, acc => (cv_stack_len, acc)",
+          "  | fuel + 1, cv_stack_len, post_merge_stack_len, acc =>",
+          "    if cv_stack_len > post_merge_stack_len then",
+          f"      merge_cv_stack_loop fuel (cv_stack_len - {dec}) post_merge_stack_len (acc ++ [{', '.join(ev)}])",
+          "    else (cv_stack_len, acc)", "",
+          "/-- `hasher_merge_cv_stack`: the new `cv_stack_len` and the accesses to `cv_stack` -/",
+          "def hasher_merge_cv_stack (cv_stack_len total_len : Nat) : Nat × List Acc :=",
+          "  merge_cv_stack_loop (cv_stack_len + 1) cv_stack_len (Arith.popcnt total_len) []", ""]
+    # ---- hasher_push_cv
+    fn = "hasher_push_cv"
+    params, body = find_fn(A, "c/blake3.c", r"INLINE\s+void\s+hasher_push_cv\s*\(")
+    body = strip_comments(body)
+    m = re.match(r"^\s*hasher_merge_cv_stack\(\s*self\s*,\s*chunk_counter\s*\)\s*;\s*memcpy\(\s*" + STACK + r"\s*,\s*new_cv\s*,\s*(\w+)\s*\)\s*;\s*self->cv_stack_len\s*\+=\s*(\d+)\s*;\s*$", body, re.S)
+    if not m:
+        fail(fn, "expected `hasher_merge_cv_stack(self, chunk_counter); memcpy(&self->cv_stack[..], new_cv, N); self->cv_stack_len += k;`")
+    try:
+        off = c_int_expr(m.group(1), names, cc)
+        ln = cc[m.group(2)] if m.group(2) in cc else int(m.group(2))
+    except Exception as ex:
+        fail(fn, str(ex))
+    o += ["/-- `hasher_push_cv` -/",
+          "def hasher_push_cv (cv_stack_len chunk_counter : Nat) : Nat × List Acc :=",
+          "  let (cv_stack_len, acc) := hasher_merge_cv_stack cv_stack_len chunk_counter",
+          f"  (cv_stack_len + {m.group(3)}, acc ++ [.write {off} {ln}])", ""]
+    # ---- blake3_hasher_finalize_seek
+    fn = "blake3_hasher_finalize_seek"
+    params, body = find_fn(A, "c/blake3.c", r"void\s+blake3_hasher_finalize_seek\s*\(")
+    body = strip_comments(body)
+    st = c_statements_ws(body)
+    try:
+        if not (st[0][0] == "if" and re.match(r"^\s*out_len\s*==\s*0\s*$", st[0][1]) and re.match(r"^\s*return\s*;\s*$", st[0][2])):
+            fail(fn, "first statement is not the out_len == 0 early return")
+        if not (st[1][0] == "if" and re.match(r"^\s*self->cv_stack_len\s*==\s*0\s*$", st[1][1]) and "cv_stack[" not in st[1][2] and re.search(r"return\s*;\s*$", st[1][2])):
+            fail(fn, "second statement is not the empty-stack early return")
+        rest = st[2:]
+        i = 0
+        while rest[i][0] == "stmt" and re.match(r"^(output_t\s+output|size_t\s+cvs_remaining)$", rest[i][1]):
+            i += 1
+        ifs = rest[i]
+        if not (ifs[0] == "ifelse" and re.match(r"^\s*chunk_state_len\(\s*&self->chunk\s*\)\s*>\s*0\s*$", ifs[1])):
+            fail(fn, "expected if (chunk_state_len(&self->chunk) > 0) {...} else {...}")
+
+        def branch(txt):
+            init, evs = None, []
+            nm = dict(names)
+            for kind, *r in c_statements(txt):
+                t = r[0]
+                mm = re.match(r"^cvs_remaining\s*=\s*(.+)$", t, re.S)
+                if mm:
+                    init = c_int_expr(mm.group(1), nm, cc)
+                    nm["cvs_remaining"] = "(" + init + ")"
+                    continue
+                if re.match(r"^output\s*=\s*chunk_state_output\(\s*&self->chunk\s*\)$", t):
+                    continue
+                mm = re.match(r"^output\s*=\s*parent_output\(\s*" + STACK + r"\s*,\s*self->key\s*,\s*self->chunk\.flags\s*\)$", t, re.S)
+                if mm:
+                    evs.append(f".read {c_int_expr(mm.group(1), nm, cc)} {cc['BLAKE3_BLOCK_LEN']}")
+                    continue
+                fail(fn, f"statement {t!r}")
+            if init is None:
+                fail(fn, "a branch does not set cvs_remaining")
+            return init, evs
+        i1, e1 = branch(ifs[2])
+        i2, e2 = branch(ifs[3])
+        wl = rest[i + 1]
+        if not (wl[0] == "while" and re.match(r"^\s*cvs_remaining\s*>\s*0\s*$", wl[1])):
+            fail(fn, "expected while (cvs_remaining > 0)")
+        nm = dict(names)
+        nm["cvs_remaining"] = "(cvs_remaining : Int)"
+        lev = []
+        predec = None
+        for kind, *r in c_statements(wl[2]):
+            t = r[0]
+            mm = re.match(r"^cvs_remaining\s*-=\s*(\d+)$", t)
+            if mm:
+                if lev:
+                    fail(fn, "cvs_remaining is decremented after an access in the loop")
+                predec = int(mm.group(1))
+                nm["cvs_remaining"] = f"((cvs_remaining : Int) - {predec})"
+                continue
+            if re.match(r"^uint8_t\s+parent_block\s*\[\s*BLAKE3_BLOCK_LEN\s*\]$", t):
+                continue
+            mm = re.match(r"^memcpy\(\s*parent_block\s*,\s*" + STACK + r"\s*,\s*(\d+)\s*\)$", t, re.S)
+            if mm:
+                lev.append(f".read {c_int_expr(mm.group(1), nm, cc)} {mm.group(2)}")
+                continue
+            if re.match(r"^output_chaining_value\(\s*&output\s*,\s*&parent_block\[\s*32\s*\]\s*\)$", t) or \
+               re.match(r"^output\s*=\s*parent_output\(\s*parent_block\s*,\s*self->key\s*,\s*self->chunk\.flags\s*\)$", t):
+                continue
+            fail(fn, f"statement {t!r}")
+        if predec is None:
+            fail(fn, "the loop does not decrease cvs_remaining")
+        last = rest[i + 2]
+        if not (last[0] == "stmt" and re.match(r"^output_root_bytes\(\s*&output\s*,\s*seek\s*,\s*out\s*,\s*out_len\s*\)$", last[1])) or len(rest) != i + 3:
+            fail(fn, "expected the function to end with output_root_bytes(&output, seek, out, out_len)")
+    except TranslationBroken:
+        raise
+    except Exception as ex:
+        fail(fn, str(ex))
+    o += ["def finalize_walk_loop : Nat → Nat → List Acc → List Acc",
+          "  | 0, _, acc => acc",
+          "  | fuel + 1, cvs_remaining, acc =>",
+          "    if cvs_remaining > 0 then",
+          f"      finalize_walk_loop fuel (cvs_remaining - {predec}) (acc ++ [{', '.join(lev)}])",
+          "    else acc", "",
+          "/-- `blake3_hasher_finalize_seek` with `out_len > 0`: the accesses to `cv_stack` before `output_root_bytes` -/",
+          "def finalize_seek_accesses (cv_stack_len chunk_state_len : Nat) : List Acc :=",
+          "  if cv_stack_len = 0 then [] else",
+          "  let (cvs_remaining, acc) : Int × List Acc :=",
+          f"    if chunk_state_len > 0 then ({i1}, [{', '.join(e1)}]) else ({i2}, [{', '.join(e2)}])",
+          "  finalize_walk_loop (cvs_remaining.toNat + 1) cvs_remaining.toNat acc", ""]
+    return "\n".join(o)
+
+
+def c_statements_ws(text):
+    """like c_statements, with `while (..) {..}` and `if (..) {..} else {..}`"""
+    out = []
+    i, n = 0, len(text)
+    while i < n:
+        while i < n and text[i].isspace():
+            i += 1
+        if i >= n:
+            break
+        m = re.match(r"(if|while)\s*\(", text[i:])
+        if m:
+            j = match_brace(text, i + m.end() - 1, "(", ")")
+            k = j
+            while text[k].isspace():
+                k += 1
+            if text[k] != "{":
+                raise ValueError("block expected")
+            e = match_brace(text, k)
+            cond, blk = text[i + m.end():j - 1], text[k + 1:e - 1]
+            if m.group(1) == "while":
+                out.append(("while", cond, blk))
+                i = e
+                continue
+            m2 = re.match(r"\s*else\s*\{", text[e:])
+            if m2:
+                k2 = e + m2.end() - 1
+                e2 = match_brace(text, k2)
+                out.append(("ifelse", cond, blk, text[k2 + 1:e2 - 1]))
+                i = e2
+            else:
+                out.append(("if", cond, blk))
+                i = e
+            continue
+        j = text.index(";", i)
+        out.append(("stmt", text[i:j].strip()))
+        i = j + 1
+    return out
+
 # ------------------------------------------------------------------------------------------------
 # G5: published test vectors
 
@@ -1375,6 +2057,7 @@ ARTEFACTS = [
     ("RsPortable.lean", "G2-rs-portable", gen_rs_portable),
     ("Arith.lean", "G3-arith", gen_arith),
     ("Regions.lean", "G3b-regions", gen_regions),
+    ("Skeleton.lean", "G6-skeleton", gen_skeleton),
     ("RefCompress.lean", "G2-ref-compress", gen_ref_compress),
     ("CPortable.lean", "G2-c-portable", gen_c_portable),
     ("Vectors.lean", "G5-vectors", gen_vectors),
